@@ -1,4 +1,4 @@
-import ArrProofs.Lemmas.C19
+import ArrProofs.Lemmas.C19Axis
 /-!
 # C19 — bit unpacking and packing are inverse; `binary_repr` parses back
 
@@ -6,11 +6,13 @@ Property theorems only (helpers in `ArrProofs/Lemmas/C19.lean`).  Model under te
 (`toBitOrder`, `unpackByte`, `unpackFlat`, `unpackFlatArr`, `unpackLane`, `packGroup`, `pad8`, `packFlat`,
 `packFlatArr`, `packLane`, `unpackBits`, `packBits`, `binaryRepr`, `binaryReprSigned`).
 
-Scope of this file: the flat form (`axis = None`), the lane functions handed to `apply_along_axis`, and the
+Scope of this file: the flat form (`axis = None`), the lane functions handed to `apply_along_axis`, the
 lifting of the lane round trip through *any* `apply_along_axis` that maps lanes independently (`AlongLifts`,
-the obligation the shared axis model discharges for the real pipeline).  Not in this file: that the crate's
-`apply_along_axis` satisfies `AlongLifts` (rank ≥ 4 of the pinned tree does not); the axis forms are tied
-differentially against the reference semantics `alongRef` on rank ≤ 3.
+the obligation the shared axis model discharges for the crate's pipeline), and the complete axis statements
+for the coordinate-level reference semantics `alongRef` (which satisfies `AlongLifts`, `alongRef_lifts`).
+Not in this file: that the crate's `apply_along_axis` *pipeline* (moveaxis / ravel / split / reshape / moveaxis
+back) equals `alongRef` — that is the shared axis model's `applyAlongAxis_spec` (the pinned tree violates it for
+rank ≥ 4); here the axis forms are tied to the crate differentially, through `alongRef`, on rank ≤ 3.
 -/
 namespace ArrModel.C19
 open ArrModel
@@ -181,23 +183,82 @@ theorem pack_unpack_flat_arr (along : Along) (a : Arr Nat) (ord : Option Spellin
   simp only [packLane] at hl
   exact hl
 
-/-- an `apply_along_axis` through which a lane-wise inverse pair lifts to an array-wise inverse pair (the
-obligation on the axis machinery; it must keep rank and non-emptiness so that the second call sees the same axis) -/
-def AlongLifts (along : Along) (a : Arr Nat) (k : Nat) : Prop :=
-  ∀ f g : Arr Nat → Res (Arr Nat),
-    (∀ lane : Arr Nat, (∀ b ∈ lane.elems, b ∈ a.elems) → (f lane >>= g) = .ok (Arr.flat lane.elems)) →
-    ∃ u, along a k f = .ok u ∧ u.ndim = a.ndim ∧ u.isEmpty = false ∧ along u k g = .ok a
+/-- the two lane functions form an inverse pair in the sense `AlongLifts` asks for: a lane of `n > 0` bytes
+goes to a 1-D array of `8·n` bits and comes back -/
+theorem lane_pair (o : BitOrder) (l : List Nat) (hl : l ≠ []) (h : ∀ b ∈ l, b < 256) :
+    (unpackFlat o l).length = 8 * l.length ∧
+    unpackLane o none (Arr.flat l) = .ok (Arr.flat (unpackFlat o l)) ∧
+    packLane o (Arr.flat (unpackFlat o l)) = .ok (Arr.flat l) := by
+  have hn : l.length ≠ 0 := by simpa using hl
+  have he : (Arr.flat l).isEmpty = false := by simpa [Arr.isEmpty, Arr.flat] using hl
+  have hu : (Arr.flat (unpackFlat o l)).isEmpty = false := by
+    have := unpackFlat_length o l
+    simp only [Arr.isEmpty, Arr.flat, beq_eq_false_iff_ne, ne_eq]; omega
+  refine ⟨unpackFlat_length o l, ?_, ?_⟩
+  · simp only [unpackLane, he, Bool.false_eq_true, if_false]
+    simpa [Arr.flat] using unpack_flat_arr o (Arr.flat l)
+  · simp only [packLane, hu, Bool.false_eq_true, if_false, packFlatArr]
+    simp only [Arr.flat, pack_unpack_flat o l h, Res.bind_ok]
+
+/-- the length along an in-range axis of a non-empty well-formed array is positive -/
+theorem axis_len_pos (a : Arr Nat) (k : Nat) (hwf : a.WF) (hk : k < a.ndim) (hne : a.isEmpty = false) :
+    0 < a.shape.getD k 0 := by
+  have hlen : a.elems.length = (a.shape.take k).prod * a.shape.getD k 0 * (a.shape.drop (k + 1)).prod := by
+    rw [hwf]; exact prod_split a.shape k hk
+  have : a.elems.length ≠ 0 := by simpa [Arr.isEmpty] using hne
+  apply Nat.pos_of_ne_zero
+  intro h0; rw [h0] at hlen; simp at hlen; exact this (by simp [hlen])
 
 /-- **round trip along an axis**, for any `apply_along_axis` satisfying `AlongLifts`: same axis, same order ⇒
-original bytes and shape -/
+the original bytes *and shape* -/
 theorem pack_unpack_axis (along : Along) (a : Arr Nat) (ax : Int) (ord : Option Spelling) (o : BitOrder)
-    (ho : optOrder ord = .ok o) (hne : a.isEmpty = false) (h : ∀ b ∈ a.elems, b < 256)
-    (hal : AlongLifts along a (normalizeAxis a.ndim ax)) :
+    (ho : optOrder ord = .ok o) (hwf : a.WF) (hk : normalizeAxis a.ndim ax < a.ndim) (hne : a.isEmpty = false)
+    (h : ∀ b ∈ a.elems, b < 256) (hal : AlongLifts along a (normalizeAxis a.ndim ax)) :
     (unpackBits along a (some ax) none ord >>= fun u => packBits along u (some ax) ord) = .ok a := by
-  obtain ⟨u, hu, hnd, hue, hback⟩ := hal (unpackLane o none) (packLane o)
-    (fun lane hl => lane_roundtrip o lane (fun b hb => h b (hl b hb)))
+  have hn := axis_len_pos a _ hwf hk hne
+  obtain ⟨u, hu, hnd, hue, hback⟩ := hal (unpackLane o none) (packLane o) (8 * a.shape.getD (normalizeAxis a.ndim ax) 0)
+    (by omega)
+    (fun l hl hmem => by
+      have hl0 : l ≠ [] := fun e => by have h0 : l.length = 0 := (by simp [e]); omega
+      obtain ⟨h1, h2, h3⟩ := lane_pair o l hl0 (fun b hb => h b (hmem b hb))
+      exact ⟨unpackFlat o l, by rw [h1, hl], h2, h3⟩)
   simp only [unpackBits, hne, ho, hu, Res.bind_ok, packBits, hue, hnd, Bool.false_eq_true, if_false]
   exact hback
+
+/-- **round trip along every axis for the reference lane semantics** (no side condition on the axis machinery) -/
+theorem pack_unpack_axis_ref (a : Arr Nat) (ax : Int) (ord : Option Spelling) (o : BitOrder)
+    (ho : optOrder ord = .ok o) (hwf : a.WF) (hk : normalizeAxis a.ndim ax < a.ndim) (hne : a.isEmpty = false)
+    (h : ∀ b ∈ a.elems, b < 256) :
+    (unpackBits alongRef a (some ax) none ord >>= fun u => packBits alongRef u (some ax) ord) = .ok a :=
+  pack_unpack_axis alongRef a ax ord o ho hwf hk hne h (alongRef_lifts a _ hwf hk hne)
+
+/-- **what unpacking along an axis is** (reference lane semantics): the axis becomes eight times as long, every
+other axis is kept, and every lane along the axis is replaced by its flat unpacking -/
+theorem unpack_axis_ref (a : Arr Nat) (ax : Int) (ord : Option Spelling) (o : BitOrder)
+    (ho : optOrder ord = .ok o) (hwf : a.WF) (hk : normalizeAxis a.ndim ax < a.ndim) (hne : a.isEmpty = false) :
+    let k := normalizeAxis a.ndim ax
+    let O := (a.shape.take k).prod
+    let n := a.shape.getD k 0
+    let I := (a.shape.drop (k + 1)).prod
+    unpackBits alongRef a (some ax) none ord =
+      .ok ⟨unlanes ((lanes a.elems O n I).map (unpackFlat o)) O (8 * n) I, a.shape.set k (8 * n)⟩ := by
+  intro k O n I
+  have hn : 0 < n := axis_len_pos a _ hwf hk hne
+  simp only [unpackBits, hne, ho, Bool.false_eq_true, if_false]
+  exact alongRef_ok a k hwf hk hne (unpackLane o none) (unpackFlat o) (8 * n) (fun l hl => by
+    have hl' : l.length = n := hl
+    have hl0 : l ≠ [] := fun e => by have h0 : l.length = 0 := (by simp [e]); omega
+    have he : (Arr.flat l).isEmpty = false := by simpa [Arr.isEmpty, Arr.flat] using hl0
+    refine ⟨?_, by rw [unpackFlat_length, hl']⟩
+    simp only [unpackLane, he, Bool.false_eq_true, if_false]
+    simpa [Arr.flat] using unpack_flat_arr o (Arr.flat l))
+
+/-- an axis outside the rank is an error value in both operations (reference lane semantics) -/
+theorem axis_out_of_range_ref (a : Arr Nat) (ax : Int) (count : Option Int) (ord : Option Spelling) (o : BitOrder)
+    (ho : optOrder ord = .ok o) (hne : a.isEmpty = false) (hk : a.ndim ≤ normalizeAxis a.ndim ax) :
+    unpackBits alongRef a (some ax) count ord = .err .AxisOutOfBounds ∧
+    packBits alongRef a (some ax) ord = .err .AxisOutOfBounds := by
+  simp [unpackBits, packBits, hne, ho, alongRef, hk]
 
 /-! ## the `count` argument (repaired negative arm) -/
 
